@@ -56,12 +56,18 @@ def module_descs(draw, with_apps=True, max_depth=3, sym_pool=('a', 'b', 'c', 'A'
             mname, i = draw(st.sampled_from(all_axioms))
             claims.append({'kind': 'axiom', 'module': mname, 'index': i})
         elif with_apps:
-            kind = draw(st.sampled_from(['app'] * 7 + ['univgen'] * 2 + ['quant'] * 2 + (['taut'] if allow_taut else []))) if rich else 'app'
+            kind = draw(st.sampled_from(['app'] * 7 + ['univgen'] * 2 + ['quant'] * 2 + ['dyninst'] * 2 + (['taut'] if allow_taut else []))) if rich else 'app'
             if kind in ('app', 'univgen'):
                 app = S.draw_app(draw, cfg, depth=draw(st.integers(1, 2)), entries=S.light_catalogue(), arg_depth=1)
                 c = {'kind': kind, 'app': app.to_json()}
                 if kind == 'univgen': c['var'] = draw(st.sampled_from(cfg.ids))
                 claims.append(c)
+            elif kind == 'dyninst':
+                # a primitive schema instantiated through dynamic_inst with the keys in an arbitrary insertion order
+                schema = draw(st.sampled_from(['prop1', 'prop2', 'prop3']))
+                keys = list(draw(st.permutations({'prop1': [0, 1], 'prop2': [0, 1, 2], 'prop3': [0]}[schema])))
+                keys = keys[: draw(st.integers(1, len(keys)))]
+                claims.append({'kind': 'dyninst', 'schema': schema, 'delta': [[k, gens.sugared_to_json(draw_axiom(draw, cfg, 1))] for k in keys]})
             elif kind == 'quant':
                 _, _, defs = H.pool()
                 pat = draw_axiom(draw, cfg, 2)
@@ -118,7 +124,7 @@ def build_module(desc):
     root = mk(desc)
     apps = [S.App.from_json(c['app']) for c in desc.get('claims', []) if c['kind'] in ('app', 'univgen')]
     prop = taut = None
-    if apps or any(c['kind'] in ('taut', 'quant') for c in desc.get('claims', [])):
+    if apps or any(c['kind'] in ('taut', 'quant', 'dyninst') for c in desc.get('claims', [])):
         need_taut = any(c['kind'] == 'taut' for c in desc.get('claims', [])) or any(n in {e.name for e in S.catalogue() if e.module == 'taut'} for a in apps for n in a.entries())
         if need_taut:
             taut = root.import_module(Tautology()); prop = taut
@@ -143,6 +149,8 @@ def build_module(desc):
             sub.prop = prop
             th = Substitution.universal_gen(sub, next(it).build(root, prop, taut), P.EVar(c['var']))
             th = _rebind(root, th)
+        elif c['kind'] == 'dyninst':
+            th = root.dynamic_inst(getattr(root, c['schema'])(), {k: gens.build_repo(gens.sugared_from_json(v, by_label)) for k, v in c['delta']})
         elif c['kind'] == 'quant':
             th = root.dynamic_inst(root.exists_quantifier(), {0: gens.build_repo(gens.sugared_from_json(c['pattern'], by_label))})
         else:
